@@ -64,7 +64,7 @@ def _work(job: tuple) -> dict:
                     nontrivial.add((d.name, vi))
                 elif any(x for x in want):
                     nontrivial.add((d.name, vi))
-            if isinstance(top, pydsdl.UnionType):
+            if isinstance(top, pydsdl.UnionType) and len(top.fields) < 2 ** top.tag_field_type.bit_length:  # else: every tag value the storage can hold is valid
                 plan.append((ti, d, t, None, "union_tag", [str(len(top.fields))], None, False, -1))
                 nontrivial.add((d.name, -1))
         for c in cfgs:
